@@ -10,3 +10,8 @@ def run(ctx):
         ctx, owners=OWNERS, n_valid=60, n_mut=260,
         rule="conformant scenarios (half with thread groups, two renderings each) and single-fault mutants owned by C05 (see harness/mutators.py), each mutant applied to a fresh conformant scenario; non-trivial = every mutant and every conformant scenario with a checkpoint; distinct by abstract scenario",
         trusted=[], prop_files=PROP_FILES if "PROP_FILES" in globals() else None)
+    # scope through import connections: a checkpoint bound to a native thread group added to an imported action or checkpoint
+    import random, engine
+    scale = 1 if ctx.tier == "quick" else 10
+    engine.import_family(ctx, random.Random(ctx.seed + 5), 8 * scale, 24 * scale, only=("scope_violation_through_connection",),
+                         what="T3 correspondence: thread scope through import connections, whole validator vs Coq model (Model/Imports.v)")
